@@ -426,8 +426,8 @@ class C44(Prop):
 
     # ---- generation (runs the real code: the log is part of the request)
     def gen(self, rng, tier):
-        n_cases = {'quick': 16, 'thorough': 300, 'search': 80}.get(tier, 16)
-        n_gf = {'quick': 2, 'thorough': 30, 'search': 6}.get(tier, 2)
+        n_cases = {'quick': 16, 'thorough': 60, 'search': 40}.get(tier, 16)
+        n_gf = {'quick': 2, 'thorough': 6, 'search': 4}.get(tier, 2)
         for k in range(n_cases):
             n = rng.randint(2, 8 if tier != 'quick' else 7)
             mismatch = rng.random() < 0.2
